@@ -9,13 +9,13 @@ Local Open Scope Z_scope.
 (* ---- index scans ---- *)
 Definition rq_at (d : bytes) (i : nat) : N := nth i d 0%N.
 
-(* while ((pos < len) && p(data[pos])) pos++;   n = len - pos *)
-Fixpoint rq_fwd (p : N -> bool) (d : bytes) (n pos : nat) : nat :=
-  match n with
-  | O => pos
-  | S n' => if p (rq_at d pos) then rq_fwd p d n' (S pos) else pos
+(* while ((pos < len) && p(data[pos])) pos++;   s = data + pos, n = len - pos (len <= |data| at every call site) *)
+Fixpoint rq_fwd (p : N -> bool) (s : bytes) (n pos : nat) : nat :=
+  match n, s with
+  | S n', x :: r => if p x then rq_fwd p r n' (S pos) else pos
+  | _, _ => pos
   end.
-Definition rq_fwd_while (p : N -> bool) (d : bytes) (pos len : nat) : nat := rq_fwd p d (len - pos) pos.
+Definition rq_fwd_while (p : N -> bool) (d : bytes) (pos len : nat) : nat := rq_fwd p (skipn pos d) (len - pos) pos.
 
 (* while ((pos > start) && p(data[pos])) pos--;   n = pos - start *)
 Fixpoint rq_bwd (p : N -> bool) (d : bytes) (n pos : nat) : nat :=
@@ -41,7 +41,8 @@ Fixpoint rq_chomp_rev (r : bytes) : bytes :=
     else if (x =? CR)%N then rq_chomp_rev r1
     else r
   end.
-Definition htp_chomp (s : bytes) : bytes := rev (rq_chomp_rev (rev s)).
+(* rev_append _ [] is List.rev (List.rev_alt) computed in linear time: header lines can be 100 KB long *)
+Definition htp_chomp (s : bytes) : bytes := rev_append (rq_chomp_rev (rev_append s [])) [].
 
 (* ---- line classification ---- *)
 Definition htp_is_line_empty (d : bytes) : bool :=
